@@ -794,4 +794,35 @@ theorem children_count (t : T) (i j : Nat) :
   rw [(nodup_of_sorted (children_sorted t i)).count]
   simp only [mem_children]
 
+/-! ## closure form of all_children -/
+
+theorem mem_ancestors_of_child {t : T} (hf : Forest t) {i c : Nat} (hc : c ∈ children t i) :
+    i ∈ ancestors t c := by
+  obtain ⟨_, hpc, hne⟩ := mem_children.mp hc
+  have hle := parentOf_le_of_forest hf c
+  rw [ancestors_of_lt (by omega), hpc]; simp
+
+/-- "children and, recursively, theirs" -/
+theorem mem_allChildren_closure {t : T} (hf : Forest t) {i j : Nat} :
+    j ∈ allChildren t i ↔ ∃ c ∈ children t i, j = c ∨ j ∈ allChildren t c := by
+  constructor
+  · intro h
+    have h' := (mem_allChildren hf).mp h
+    obtain ⟨c, hc1, hc2, hc3⟩ := ancestors_child h'
+    have hj := ancestors_lt_size hf h'
+    have hcj : c ≤ j := by
+      rcases hc3 with rfl | hc3
+      · exact Nat.le_refl _
+      · exact Nat.le_of_lt (ancestors_lt hc3)
+    refine ⟨c, mem_children.mpr ⟨by omega, hc1, by omega⟩, ?_⟩
+    rcases hc3 with rfl | hc3
+    · exact .inl rfl
+    · exact .inr ((mem_allChildren hf).mpr hc3)
+  · rintro ⟨c, hc, hj⟩
+    have hic := mem_ancestors_of_child hf hc
+    rw [mem_allChildren hf]
+    rcases hj with rfl | hj
+    · exact hic
+    · exact ancestors_trans hic ((mem_allChildren hf).mp hj)
+
 end Ccp.Tree
